@@ -40,3 +40,5 @@ D["C10"] = dict(text="loop invariants on encode_base58 / decode_base58 over symb
                 technique="deductive: inductive loop invariants over z3 sequences + induction-schema lemmas")
 D["C04"] = dict(text="mnemonic_from_entropy: for the five sizes every word is the word at the j-th 11-bit group of ENT || SHA-256(ENT)[:ENT/32 bits] (one obligation per word, bit-string abstraction), single-space separators, word counts 12..24; all other sizes (incl. whitespace hex) rejected; word list pinned by exhaustive checks and the published hash.",
                 technique="deductive: bit-string abstraction + per-word LIA obligations; exhaustive constant check of the word list")
+D["C05"] = dict(text="five address kinds = spec encodings of the standard scripts (templates 0014/0020/a914..87/76a914..88ac, 1-of-1 witness script) for both networks; script builders; HASH160 = RIPEMD160(SHA256); pure-Python RIPEMD-160 proved against a generative spec: rol/f for any integer, all 80 rounds for every state (low-bits mode), feed-forward, padding for EVERY length < 2^61, block folds by loop invariants.",
+                technique="deductive: low-bits bit-vector VCs per round + LIA/sequence padding VC + loop invariants")
